@@ -399,6 +399,7 @@ def check(chk, repo, tier):
     # the popping helper ------------------------------------------------------------
     helpers = repo.mod("helpers")
     pop_helper(chk, helpers)
+    pop_transitions(chk, repo, tier)
 
     # python functions looking at ctx.stacks -------------------------------------------
     for modname in repo.package_modules():
@@ -646,3 +647,68 @@ def pop_helper(chk, helpers):
     chk.ob("C09.pop-helper", "helpers.wrapify", ok,
            "wrapify(item, count) no longer pops exactly `count` entries via "
            "pop()", helpers.rel, wf.lineno, sample="pop(item, count, ctx)")
+
+
+def pop_transitions(chk, repo, tier):
+    """pop / wrapify as transition systems: the current source is interpreted
+    on every small stack, every count from 0 (a niladic element under a
+    modifier) and both values of the two flags pop consults; exactly the top
+    `count` entries may go, the prefix below them stays as it is."""
+    import itertools  # noqa: PLC0415
+    from ..pe import PRaise  # noqa: PLC0415
+    it = Interp(repo)
+
+    def no_stdin(*a, **k):
+        raise PRaise("EOFError", ("no stdin in the abstract run",))
+    it.builtins["input"] = no_stdin
+    Context = it.module("vyxal.context").get("Context")
+    hm = it.module("vyxal.helpers")
+    helpers = repo.mod("helpers")
+    top = 5 if tier == "thorough" else 4
+    for fname in ("pop", "wrapify"):
+        try:
+            fn = hm.get(fname)
+        except KeyError:
+            raise AnalysisError(f"anchor vanished: helpers.{fname}") from None
+        bad = None
+        n = 0
+        for m, count, retain, rev, n_in in itertools.product(
+                range(top + 1), range(top + 1), (False, True), (False, True),
+                (0, 2)):
+            ctx = it.instantiate(Context, [], {})
+            ctx.d["inputs"] = [[[f"in{i}" for i in range(n_in)], 0]]
+            ctx.d["retain_popped"] = retain
+            ctx.d["reverse_flag"] = rev
+            orig = [f"s{i}" for i in range(m)]
+            stack = list(orig)
+            it.steps = 0
+            n += 1
+            try:
+                got = fn(stack, count, ctx)
+            except (PRaise, Exception) as exc:  # noqa: BLE001
+                bad = bad or (m, count, retain, rev, "raises " + repr(exc))
+                continue
+            removed = min(m, count)
+            keep = orig[:m - removed]
+            taken = orig[m - removed:]
+            res = got if isinstance(got, list) and not (
+                fname == "pop" and count == 1) else [got]
+            if stack[:len(keep)] != keep:
+                why = f"entries below the top {count} changed: {stack}"
+            elif not retain and len(stack) != len(keep):
+                why = (f"{m - len(stack)} entries removed from a stack of "
+                       f"{m} for count {count}: {stack}")
+            elif len(res) != count or any(x not in res for x in taken):
+                why = f"returns {got!r}, not the top {count} entries"
+            else:
+                continue
+            bad = bad or (m, count, retain, rev, why)
+        chk.ob("C09.pop-transition", f"helpers.{fname}", bad is None,
+               f"{fname}(stack, count, ctx) on a stack of "
+               f"{bad[0] if bad else ''} entries, count "
+               f"{bad[1] if bad else ''}, retain_popped="
+               f"{bad[2] if bad else ''}, reverse_flag="
+               f"{bad[3] if bad else ''}: {bad[4] if bad else ''}",
+               helpers.rel, helpers.function(fname).lineno,
+               witness=repr(bad) if bad else None,
+               sample={"abstract states": n})
